@@ -8,7 +8,7 @@ use super::c09::farm_expired;
 use super::util::*;
 use crate::sim::{coins_to_map, viol, MResult, Monitor, Obs, SimCore};
 use crate::trace::{Op, Step};
-use crate::world::TxOut;
+use crate::world::{bal, TxOut};
 
 #[derive(Default)]
 pub struct C11;
@@ -93,6 +93,53 @@ impl Monitor for C11 {
                 },
             };
             c.stats.sig(&[step.op.kind(), "rej", who, &funds.len().to_string(), if cfg.create_farm_fee.amount.is_zero() { "fee0" } else { "fee+" }]);
+            // ---- a well-formed creation is accepted (every fee configuration must be usable): exact
+            // funds, ordinary epochs inside the buffer, a known LP token with a free slot, no
+            // identifier of its own, nothing injected or frozen
+            if let FarmAction::Create { params } = action {
+                let fee = &cfg.create_farm_fee;
+                let reward = &params.farm_asset;
+                let cur = epoch.unwrap_or(u64::MAX);
+                let start = params.start_epoch.unwrap_or(cur.saturating_add(1));
+                let end = params.preliminary_end_epoch.unwrap_or(start.saturating_add(14));
+                let paid = coins_to_map(funds);
+                let mut want: BTreeMap<String, u128> = BTreeMap::new();
+                *want.entry(reward.denom.clone()).or_insert(0) += reward.amount.u128();
+                if !fee.amount.is_zero() {
+                    *want.entry(fee.denom.clone()).or_insert(0) += fee.amount.u128();
+                }
+                let lp_known = pre.pools.iter().any(|p| p.pool_info.lp_denom == params.lp_denom);
+                let live_on_lp = pre.farms.iter().filter(|f| f.lp_denom == params.lp_denom && farm_expired(&c.w, f, now) != Some(true)).count() as u32;
+                let affordable = funds.iter().all(|f| bal(&pre.bal, sender, &f.denom) >= f.amount.u128());
+                let span = end.saturating_sub(start).max(1) as u128;
+                let well_formed = epoch.is_some()
+                    && step.fault.is_none()
+                    && out.report.fault_fired == 0
+                    && out.report.frozen_fired == 0
+                    && crate::seams::get_frozen().is_empty()
+                    && params.farm_identifier.is_none()
+                    && params.curve.is_none()
+                    && lp_known
+                    && paid == want
+                    && affordable
+                    && reward.amount.u128() >= 1000
+                    && reward.amount.u128() >= span
+                    && start > cur
+                    && start <= cur.saturating_add(cfg.max_farm_epoch_buffer as u64)
+                    && start < end
+                    && end < 1_000_000_000
+                    && live_on_lp < cfg.max_concurrent_farms;
+                if well_formed {
+                    c.stats.bump("probe.c11.well_formed_create_refused");
+                    return Err(viol(
+                        "C11.create_refused",
+                        format!(
+                            "well-formed creation refused (fee {fee}, reward {reward}, funds {:?}, epochs {start}..{end} at {cur}, {live_on_lp}/{} unexpired farms on the LP token): {}",
+                            paid, cfg.max_concurrent_farms, out.err_text().rsplit(": ").next().unwrap_or("")
+                        ),
+                    ));
+                }
+            }
             return Ok(());
         }
         // expected money movement
